@@ -970,6 +970,7 @@ func eciCall(form, v int) (bool, error) {
 }
 
 var watchdog = 20 * time.Second
+var hangs = 0 // calls that did not return so far (their goroutines cannot be stopped)
 
 const libPrefix = "github.com/makiuchi-d/gozxing/"
 
@@ -1033,12 +1034,17 @@ func guardedSite2(f func() (bool, error)) (res bool, err error, p, site, via str
 		o.p, o.site, o.via = guardSite2(func() { o.res, o.err = f() })
 		ch <- o
 	}()
-	t := time.NewTimer(watchdog)
+	wd := watchdog
+	if hangs >= 3 && wd > 3*time.Second { // goroutines of earlier hangs still spin: do not wait the full time again and again
+		wd = 3 * time.Second
+	}
+	t := time.NewTimer(wd)
 	defer t.Stop()
 	select {
 	case o := <-ch:
 		return o.res, o.err, o.p, o.site, o.via, false
 	case <-t.C:
+		hangs++
 		return false, nil, "", "", "", true
 	}
 }
@@ -1248,6 +1254,10 @@ func main() {
 		e.Via = ""
 		e.Res, e.Err, e.Errc, e.Site, e.Panic, e.Hang, e.Msg, e.Skip = 0, "", "", "", 0, 0, "", 0
 		t0 := time.Now()
+		if hangs >= 12 { // the process is saturated by spinning goroutines: the remaining inputs are not run (and not judged)
+			e.Skip, e.Msg = 1, "skip: not run after 12 hangs in this process"
+			return e, nil
+		}
 		if e.Op == "eci" {
 			form, lo, n := arg(e.A, 0, 1), arg(e.A, 1, 0), arg(e.A, 2, 1)
 			for v := lo; v < lo+n; v++ {
